@@ -494,6 +494,109 @@ def check_tls_files(ctx, cq):
     ctx.floor('C16.TLS-FILES', n, 2, 'TLS file pre-check raises')
 
 
+def check_error_passage(ctx, classes):
+    """A timeout or transport failure raises out of the enforcement call:
+    between the remote check and the caller, the combinators and the adapter
+    that evaluate it (and, or, not, rule:) catch nothing that such a failure
+    is - RuntimeError, the I/O errors of the transport, or Exception at
+    large.  A handler there turns the failure into a denial, and under a
+    `not` into an allow."""
+    prog = ctx.prog
+    from .. import grammar as G
+    region = {}
+    for q in G.check_classes(prog):
+        if q in classes.values():
+            continue
+        call = prog.find_method(q, '__call__')
+        if call is not None and call.module.name == CHECKS:
+            region.update({k: v for k, v in prog.region(call).items()
+                           if v.module.name == CHECKS})
+    adapter = prog.functions.get(CHECKS + '._check')
+    if adapter is not None:
+        region[adapter.qual] = adapter
+    wide = {'builtin:RuntimeError', 'builtin:Exception',
+            'builtin:BaseException', 'builtin:OSError', 'builtin:IOError',
+            'builtin:EnvironmentError', 'builtin:RecursionError'}
+    wide.discard('builtin:RecursionError')
+    n = 0
+    bad = 0
+    for q, f in sorted(region.items()):
+        for t in walk_no_nested(f.node):
+            if not isinstance(t, ast.Try):
+                continue
+            # only handlers around the evaluation of another check
+            calls_check = any(
+                isinstance(c, ast.Call) and (prog.callee_of(f, c) is adapter
+                                             or U(c.func) in ('rule',
+                                                              'self.rule'))
+                for b in t.body for c in ast.walk(b))
+            if not calls_check:
+                continue
+            for h in t.handlers:
+                n += 1
+                names = ['builtin:BaseException'] if h.type is None else [
+                    prog.resolve(f.module, x) for x in (
+                        h.type.elts if isinstance(h.type, ast.Tuple)
+                        else [h.type])]
+                hit = sorted(x for x in names if x in wide)
+                if hit:
+                    bad += 1
+                    ctx.ob('C16.NO-ALLOW-ON-ERROR', False,
+                           ctx.where(f.module, h), f.qual,
+                           'except %s around a nested evaluation' % U(
+                               h.type) if h.type is not None else
+                           'bare except around a nested evaluation',
+                           'the handler catches %s: a timeout or transport '
+                           'failure of a remote check evaluated below is '
+                           'swallowed here and answered as a denial (an '
+                           'allow under `not`) instead of raising' % [
+                               x.split(':')[-1] for x in hit])
+    if not bad:
+        ctx.ob('C16.NO-ALLOW-ON-ERROR', True, ctx.where(
+            prog.module(CHECKS), prog.module(CHECKS).tree), CHECKS,
+            '%d handlers around nested evaluations' % n,
+            'none of them catches what a failing remote check raises')
+
+
+def check_visible_signature(ctx, classes):
+    """The adapter decides whether to hand a check the policy name by the
+    named parameters of its __call__ as inspect.getfullargspec reports
+    them.  A decorator of the program whose wrapper takes (*args, **kwargs)
+    hides them (getfullargspec does not follow __wrapped__): the remote
+    check is then called without the name and posts `rule: null`."""
+    prog = ctx.prog
+    for name, cq in sorted(classes.items()):
+        f = prog.find_method(cq, '__call__')
+        w = None
+        decs = [d for d in f.node.decorator_list if isinstance(
+            d, (ast.Name, ast.Attribute))]
+        for d in decs:
+            dq = prog.resolve(f.module, d)
+            df = prog.functions.get(dq) if isinstance(dq, str) else None
+            if df is None:
+                continue
+            inner = [n for n in df.node.body if isinstance(
+                n, ast.FunctionDef)]
+            rets = [n for n in df.node.body if isinstance(n, ast.Return)]
+            if len(inner) == 1 and len(rets) == 1 and isinstance(
+                    rets[0].value, ast.Name) and rets[0].value.id == \
+                    inner[0].name:
+                w = inner[0]
+        a = (w if w is not None else f.node).args
+        named = [x.arg for x in a.posonlyargs + a.args]
+        ok = len(named) >= 5 or (w is None and len(f.params) >= 5)
+        ctx.ob('C16.NAME', ok, ctx.where(f.module, f.node), f.qual,
+               '__call__ as the adapter sees it: (%s)' % ', '.join(
+                   named + (['*' + a.vararg.arg] if a.vararg else [])),
+               'takes the policy name as its fifth named parameter' if ok
+               else 'the decorator %s wraps __call__ in a function with the '
+               'parameters (%s): inspect.getfullargspec sees no fifth named '
+               'parameter, the adapter leaves out the policy name and the '
+               'request carries `rule: null`' % (
+                   U(f.node.decorator_list[0]) if f.node.decorator_list
+                   else '?', ', '.join(named) or '*args, **kwargs'))
+
+
 def check(ctx):
     prog = ctx.prog
     ctx.use(EXT, CHECKS)
@@ -550,6 +653,8 @@ def check(ctx):
         fd.rule = 'C16.NAME(' + fd.rule + ')'
     for o in ctx.obligations[nob:]:
         o['rule'] = 'C16.NAME(' + o['rule'] + ')'
+    check_error_passage(ctx, classes)
+    check_visible_signature(ctx, classes)
     # remote_* options exist
     opts = prog.options()
     for o in ('remote_content_type', 'remote_timeout'):
